@@ -11,7 +11,8 @@ operation with several possible results forks the state.  Atoms:
   'Q'            percent-encoded text derived from the tainted value
   'O'            clean value of any type (not derived from the tainted one)
   ('BM', a, n)   bound method n of a value with atom a
-  ('COLL', elems, nonempty)   list/tuple/dict-values container
+  ('COLL', elems, nonempty, must)   list/tuple/dict-values container;
+                 must = element atoms certainly present
   ('FN', where)  a function of the repository
   'NS'           the namespace           'GETATTR'  a getattr-like callable
   'BLK'/'EXPR'   scenario atoms of render_blocks_ (a compiled 'v' block and
@@ -60,8 +61,17 @@ def is_text(a):
                                          isinstance(a[1], (str, bytes)))
 
 
-def coll(elems, nonempty=False):
-    return ('COLL', frozenset(elems), bool(nonempty))
+def coll(elems, nonempty=False, must=None):
+    """must: atoms certainly present among the elements (a uniform
+    non-empty container certainly holds its one element atom)."""
+    elems = frozenset(elems)
+    if must is None:
+        must = elems if (nonempty and len(elems) == 1) else ()
+    return ('COLL', elems, bool(nonempty), frozenset(must) & elems)
+
+
+def must_of(a):
+    return a[3] if kind(a) == 'COLL' and len(a) > 3 else frozenset()
 
 
 def worst(atoms, default=C):
@@ -603,9 +613,69 @@ class TaintDomain(Domain):
         return {coll(elems, bool(e.values))}
 
     def ev_ListComp(self, e, st):
-        return {coll({O})}
+        return self._comp(e, [e.elt], st)
 
-    ev_GeneratorExp = ev_SetComp = ev_DictComp = ev_ListComp
+    ev_GeneratorExp = ev_SetComp = ev_ListComp
+
+    def ev_DictComp(self, e, st):
+        return self._comp(e, [e.value], st)
+
+    @staticmethod
+    def _iter_elems(it):
+        """(element atoms, certainly non-empty) of iterating atom `it`."""
+        k = kind(it)
+        if k == 'COLL':
+            return (set(it[1]) or {O}), bool(it[2])
+        if it == T:
+            return {T, C}, False
+        if k == 'K':
+            return {C if isinstance(it[1], (str, bytes)) else O}, False
+        if is_text(it):
+            return {it}, False
+        return {O}, False
+
+    def _comp(self, e, elts, st):
+        """A comprehension: bind the targets to every element atom of the
+        iterated values and evaluate the element expression(s); the result
+        is a container of the element atoms."""
+        states = [st]
+        nonempty = True
+        must = set()
+        if len(e.generators) == 1 and not e.generators[0].ifs:
+            g0 = e.generators[0]
+            its = self.ev(g0.iter, st)
+            if len(its) == 1:
+                for m in must_of(next(iter(its))):
+                    vs = set()
+                    for el in elts:
+                        vs |= self.ev(el, self.assign(g0.target, m, st, e))
+                    if len(vs) == 1:
+                        must |= vs
+        for g in e.generators:
+            nxt = {}
+            for s in states:
+                for it in self.ev(g.iter, s):
+                    elems, ne = self._iter_elems(it)
+                    nonempty = nonempty and ne
+                    for el in sorted(elems, key=repr):
+                        cands = [self.assign(g.target, el, s, e)]
+                        for cond in g.ifs:
+                            nonempty = False
+                            c2 = []
+                            for x in cands:
+                                for b, sb in Interp(self).branch(cond, x):
+                                    if b:
+                                        c2.append(sb)
+                            cands = c2
+                        for x in cands:
+                            nxt.setdefault(x.key(), x)
+            states = list(nxt.values())[:64]
+        out = set()
+        for s in states:
+            for el in elts:
+                out |= self.ev(el, s)
+        return {coll(out or {O}, nonempty and bool(out),
+                     (must & out) if must else None)}
 
     def ev_Lambda(self, e, st):
         return {O}
@@ -823,7 +893,8 @@ class TaintDomain(Domain):
             if is_text(a) or is_text(b):
                 return {worst([a, b])}
             if kind(a) == 'COLL' and kind(b) == 'COLL':
-                return {coll(a[1] | b[1], a[2] or b[2])}
+                return {coll(a[1] | b[1], a[2] or b[2],
+                             must_of(a) | must_of(b))}
             return {O}
         if isinstance(op, ast.Mult):
             if a == T or b == T:
@@ -1193,6 +1264,24 @@ class TaintDomain(Domain):
         if name == 'builtins.isinstance' and len(args) == 2 and \
                 len(e.args) == 2:
             return {K(b) for b in self.isinstance_(a0, e.args[1])}
+        if name in ('builtins.any', 'builtins.all') and a0 is not None \
+                and kind(a0) == 'COLL':
+            els = set(a0[1])
+            ms = must_of(a0)
+            if name.endswith('any') and any(
+                    kind(x) == 'K' and x[1] for x in ms):
+                return {K(True)}
+            if name.endswith('all') and any(
+                    kind(x) == 'K' and not x[1] for x in ms):
+                return {K(False)}
+            if els and all(kind(x) == 'K' for x in els):
+                bs = {bool(x[1]) for x in els}
+                if len(bs) == 1:
+                    b = next(iter(bs))
+                    if (name.endswith('any') and not b) or \
+                            (name.endswith('all') and b) or a0[2]:
+                        return {K(b)}
+            return {K(True), K(False)}
         if name in ('builtins.isinstance', 'builtins.hasattr',
                     'builtins.len', 'builtins.int', 'builtins.float',
                     'builtins.type', 'builtins.callable', 'builtins.bool',
